@@ -638,6 +638,8 @@ def monitor(c, tr):
                             "(an error left behind by another connection was attributed to it)" % (opc, key))
                 if opc in (24, 32) and a[1] == 1 and a[2] >= 0:
                     n = a[2] if opc == 24 else a[3]
+                    if n == 0:
+                        return "Receive returned an empty %s: a Receive reports between 1 and the offered size bytes, never 0 (C01)" % ("buffer" if opc == 32 else "result (0 bytes)")
                     if n > 0:
                         if not init_k.get(key):
                             return "Receive returned %d bytes before the handshake was complete" % n
